@@ -40,7 +40,7 @@ def check_C02(run):
     g = Gen(run.seed * 1000 + 2)
     types = QUICK_TYPES if run.tier == "quick" else FULL_TYPES
     scen = merge(F.fam_gssv(g, "C02", sizes(run, 400, 3000), types), F.fam_gstrf(g, "C02", sizes(run, 400, 3000), types), F.fam_tall_n1(g, "C02", sizes(run, 40, 200), types),
-                 F.fam_gssv_big(g, "C02", sizes(run, 120, 1200), types), F.fam_symrelax(g, "C02", sizes(run, 400, 4000), types))
+                 F.fam_gssv_big(g, "C02", sizes(run, 90, 1200), types), F.fam_symrelax(g, "C02", sizes(run, 250, 4000), types))
     run.conform("lu", scen, ["C02."])
     return run.finish(rule="square systems through ?gssv, square and tall matrices through ?gstrf with caller-supplied perm_c")
 
@@ -62,9 +62,10 @@ def check_C04(run):
     mc_factor(run, ["q", "tall"], ["p", "t"])
     g = Gen(run.seed * 1000 + 4)
     types = QUICK_TYPES if run.tier == "quick" else FULL_TYPES
-    scen = F.fam_singular(g, "C04", sizes(run, 600, 5000), types)
+    scen = merge(F.fam_singular(g, "C04", sizes(run, 600, 5000), types), F.fam_singular(g, "C04", sizes(run, 200, 2000), types, fn="gssvx"),
+                 F.fam_reusezero(g, "C04", sizes(run, 300, 3000), types))
     run.conform("sing", scen, ["C04."])
-    return run.finish(rule="exactly singular matrices (empty rows/columns, Hall violations, duplicated lines) through ?gssv")
+    return run.finish(rule="exactly singular matrices (empty rows/columns, Hall violations, duplicated lines) through ?gssv and ?gssvx; refactorizations with a reused row permutation after a former pivot became exactly zero, thresholds down to 0")
 
 
 def mc_mem(run, thorough_too=True):
@@ -143,7 +144,8 @@ def check_C12(run):
 def check_C13(run):
     g = Gen(run.seed * 1000 + 13)
     types = {"d": 1.0, "s": 0.4, "z": 0.5, "c": 0.2} if run.tier == "quick" else FULL_TYPES
-    run.conform("refine", merge(F.fam_cond(g, "C13", sizes(run, 700, 6000), types), F.fam_gssvx(g, "C13", sizes(run, 400, 4000), types)), ["C13."])
+    run.conform("refine", merge(F.fam_cond(g, "C13", sizes(run, 700, 6000), types), F.fam_gssvx(g, "C13", sizes(run, 400, 4000), types),
+                                F.fam_slowrefine(g, "C13", sizes(run, 250, 2500), types)), ["C13."])
     return run.finish(rule="expert-driver runs with refinement on/off over well / ill conditioned and badly scaled systems, all Trans, zero right-hand-side columns; refinement-loop events validated against the loop automaton, BERR against the exact backward error of the returned X")
 
 
@@ -289,12 +291,15 @@ def check_C18(run):
         lst = []
         for rep in range(reps):
             for k, o in enumerate(objs):
-                fam = "screen" + o["routine"]
-                lst.append(F.screen_scenario(g, "C18-%s-%03d%02d-%s" % (fam, k, rep, ty), ty, o["routine"], [o["corrupt"]], o["factored"]))
+                fam = "screen" + o["routine"] + ("2" if len(o["corrupt"]) > 1 else "")
+                # pairs of corruptions: all of them in double precision, a quarter elsewhere (quick tier)
+                if len(o["corrupt"]) > 1 and run.tier == "quick" and ty != "d" and (k + "dzsc".index(ty)) % 4:
+                    continue
+                lst.append(F.screen_scenario(g, "C18-%s-%04d%02d-%s" % (fam, k, rep, ty), ty, o["routine"], o["corrupt"], o["mode"]))
             # the valid base calls themselves (accepted: nothing is demanded of them here)
         scen[ty] = lst
     run.conform("screen", scen, ["C18."])
-    return run.finish(rule="TLC enumerates every single-argument corruption of every routine's decision table (SluScreen); each is applied to an otherwise valid call in all four types", exhaustive=True)
+    return run.finish(rule="TLC enumerates every single-argument corruption and every pair of corruptions of every routine's decision table (SluScreen), for the expert drivers under each Fact mode; each is applied to an otherwise valid call in all four types", exhaustive=True)
 
 
 SAN_ENV = {"ASAN_OPTIONS": "exitcode=96:detect_leaks=0:abort_on_error=0:allocator_may_return_null=1", "UBSAN_OPTIONS": "halt_on_error=1:exitcode=96:print_stacktrace=1"}
